@@ -48,7 +48,7 @@ def _pre_call(ta, name: str, ranks) -> None:  # noqa: ANN001
 
 def gen_case(rnd, tier: str, i: Any) -> Dict[str, Any]:
     n_ranks = rnd.choice([1, 1, 2, 3])
-    first_step = rnd.randint(1, 500)
+    first_step = gen_sim.pick_first_step(rnd)
     n_steps = rnd.choice([0, 1, 2, 3])
     files = {}
     for r in range(n_ranks):
